@@ -19,7 +19,8 @@ META = {
              " Also: the 'auto' method, six memory layouts, warm-ups of th"
              'e same downscaler object on other data types, permuted axes '
              'and chunk shapes whose intermediate shapes collide; huge: wh'
-             'ole-volume sized arrays (> 2^25 voxels).'),
+             'ole-volume sized arrays (> 2^25 voxels).'
+             " Round 12: non-dyadic outside values (mean just beside a tie)."),
     "trusted_base": ["vlib/refs/downscale_ref.py, dtype_ref.py (Fractions)"],
     "assumptions": ["finite values; float32 results compared within 1 ulp"],
 }
